@@ -549,7 +549,8 @@ def read_command(buf, n_required_args=-1, n_optional_args=-1, skip=0,
     for _ in range(skip):
         next(buf)
 
-    name = next(buf)
+    # a lone escape at the end of input is a command with an empty name
+    name = next(buf) if buf.hasNext() else Token('', buf.position)
     # if the command is a special one (like `newcommand`), enter "special"
     # mode, in which a single `\begin` or `\end` are allowed
     if name.text in SPECIAL_COMMANDS:
